@@ -1,64 +1,24 @@
 """Development entry: oracle stream (MemFS vs Linux vs the Coq specification model) without proofs."""
 import collections, os
 from ..props import CHECKS
-from .. import ML, sh, build_coq, build_ml, build_go, GOENV
-
-
-def run_fso(ctx, name="fso", mode="admin"):
-    ok, out, failing = build_coq()
-    assert ok, out[-2000:]
-    ok, out = build_ml()
-    assert ok, out[-3000:]
-    ok, out, binp = build_go("")
-    assert ok, out[-3000:]
-    env = dict(GOENV, VERIF_FSO_MODE=mode)
-    rc, out = sh([binp, "fso", "-seed", str(ctx.seed), "-tier", ctx.tier, "-out", ctx.dir, "-name", name], cwd=ctx.dir, env=env, timeout=3000)
-    assert rc == 0, out[-3000:]
-    cases = os.path.join(ctx.dir, name + ".cases")
-    rc, out = sh("%s/driver fso < %s > %s.model" % (ML, cases, os.path.join(ctx.dir, name)), timeout=3000)
-    assert rc == 0, out[-3000:]
-    rd = lambda ext: open(os.path.join(ctx.dir, name + ext)).read().splitlines()
-    return rd(".cases"), rd(".observed"), rd(".oracle"), rd(".model")
+from .. import oracle
 
 
 def check_fsodev(ctx):
     mode = os.environ.get("VERIF_FSO_MODE", "admin")
-    cases, obs, ora, mod = run_fso(ctx, mode=mode)
-    nb = no = nt = 0
-    bex, oex, tex = [], collections.Counter(), []
-    oshow = {}
-    for i, (c, o, k, m) in enumerate(zip(cases, obs, ora, mod)):
-        ops = c.split(" | ")[1:]
-        os_, ks, ms = o.split(" | "), k.split(" | "), m.split(" | ")
-        bdone = odone = False
-        for j, op in enumerate(ops):
-            if j >= len(ms) or j >= len(ks):
-                break
-            spec, kf, thm = ms[j].split(" ~")
-            if not bdone and spec != ks[j]:
-                nb += 1
-                bdone = True
-                if len(bex) < 6:
-                    bex.append((i, j, op, spec, ks[j]))
-            if not odone and (j >= len(os_) or os_[j] != ks[j]):
-                no += 1
-                odone = True
-                key = (op.split()[0], (os_[j] if j < len(os_) else "-").split(" #")[0][:12], ks[j].split(" #")[0][:12], kf)
-                oex[key] += 1
-                oshow.setdefault(key, (i, j, op))
-            if not bdone and thm == "F" and kf == "-":
-                nt += 1
-                if len(tex) < 5:
-                    tex.append((i, j, op, spec))
-            if bdone:
-                break
-    print("histories %d; B (spec != kernel): %d; O (impl != kernel) %d; T (impl-model != spec, kf none) %d" % (len(cases), nb, no, nt))
-    for e in bex:
+    r = oracle.run_streams(ctx, "fso", mode)
+    if r is None:
+        return
+    cases, obs, ora, mod = r
+    a = oracle.analyse(cases, obs, ora, mod)
+    print("histories %d steps %d agree %d; B %d; O keys %d (%d hist); T %d" % (len(cases), a["steps"], a["agree"], len(a["B"]), len(a["O"]), sum(len(v) for v in a["O"].values()), len(a["T"])))
+    for e in a["B"][:6]:
         print(" B hist %d step %d %s\n    spec:   %s\n    kernel: %s" % e)
-    for k, n in oex.most_common(40):
-        print(" O %4d x %s   e.g. hist %d step %d: %s" % ((n, k) + oshow[k]))
-    for e in tex:
-        print(" T hist %d step %d %s  spec: %s" % e)
+    for k, v in sorted(a["O"].items(), key=lambda kv: -len(kv[1]))[:70]:
+        i, j = v[0]
+        print(" O %4d x %-32s e.g. hist %d step %d: %s" % (len(v), k, i, j, cases[i].split(" | ")[1 + j]))
+    tk = collections.Counter((t[2].split()[0], t[3]) for t in a["T"])
+    print(" T by (op, shapes):", tk.most_common(40))
 
 
 CHECKS["FSODEV"] = check_fsodev
